@@ -5,7 +5,8 @@
    wire: history (nodes ops)      spec (nodes)
      node = (input? range? deps inp0 stored formula)
      formula = (0) | (1 cols) | (2 operand) | (3 opcode operand operand)
-             | (4 operand) | (5 which operand)
+             | (4 operand) | (5 which operand) | (6) alias of the single precedent
+             | (7 which operand opcode operand)
      operand = (0 i) | (1 z) | (2 c1 c2 …)
      op = (0 n) evaluate | (1 a value) set_value | (2 n) build            *)
 From Coq Require Import ZArith List String Extraction ExtrOcamlBasic.
@@ -39,6 +40,10 @@ Definition dec_formula (x : sx) : option formula :=
       | Some o, Some a, Some b => Some (FBin o a b) | _, _, _ => None end
   | SL [SZ 4; a] => option_map FNeg (dec_operand a)
   | SL [SZ 5; SZ w; a] => option_map (FAgg (Z.to_nat w)) (dec_operand a)
+  | SL [SZ 6] => Some FAlias
+  | SL [SZ 7; SZ w; a; SZ o; b] =>
+      match op_of_code o, dec_operand a, dec_operand b with
+      | Some o, Some a, Some b => Some (FAggBin (Z.to_nat w) a o b) | _, _, _ => None end
   | _ => None
   end%Z.
 
